@@ -105,4 +105,48 @@ theorem hilbertStateX_embed (N : Nat) (d : Bool) (S P damp : Sim) (nl : Bool) (Î
     simp [hilbertStateX, hilbertState, hembed, embed, hilbertAdjacencyX, hilbertAdjacency,
       weightedX_embed, thresholdAdjacencyX_embed, phaseMaskX_embed]
 
+theorem hembed_setThreshold (h : HNet) (Î¸ : Rat) :
+    (hembed h).setThreshold id (some Î¸) = hembed (h.setThreshold Î¸) := by
+  rw [setThresholdX_eq_state, setThreshold_eq_state]
+  exact hilbertStateX_embed h.net.N h.net.directed h.net.S h.phase h.net.damp h.net.nonLocal Î¸
+
+theorem hembed_setDirected (h : HNet) (d : Bool) (S1 P1 : Sim) :
+    (hembed h).setDirected id d (embedSim S1) (embedSim P1) = hembed (h.setDirected d S1 P1) := by
+  rw [setDirectedX_eq_state, setDirected_eq_state, absX_embed]
+  exact hilbertStateX_embed h.net.N d (absSim S1) P1 h.net.damp h.net.nonLocal h.net.Î¸
+
+theorem hembed_step (h : HNet) (o : HOp) :
+    (hembed h).step id (hembedOp o) = (h.step o).map hembed := by
+  cases o with
+  | thr Î¸ => simp [XHNet.step, HNet.step, hembedOp, hembed_setThreshold]
+  | dens k =>
+    simp only [XHNet.step, HNet.step, hembedOp, XHNet.setLinkDensity, HNet.setLinkDensity]
+    have : thresholdFromIndexX (hembed h).net.S (hembed h).net.N k
+        = (thresholdFromIndex h.net.S h.net.N k).map some := thresholdFromIndexX_embed _ _ _
+    rw [this]
+    cases thresholdFromIndex h.net.S h.net.N k with
+    | none => rfl
+    | some Î¸ => simp [hembed_setThreshold]
+  | nl b =>
+    simp only [XHNet.step, HNet.step, hembedOp, XHNet.setNonLocal, HNet.setNonLocal, Option.map_some]
+    have e1 : (hembed h).net.nonLocal = h.net.nonLocal := rfl
+    rw [e1]
+    by_cases hb : (h.net.nonLocal != b) = true
+    Â· rw [if_pos hb, if_pos hb]
+      exact congrArg some
+        (hembed_setThreshold ({ h with net := { h.net with nonLocal := b } } : HNet) h.net.Î¸)
+    Â· rw [if_neg hb, if_neg hb]
+  | dir d S1 P1 => simp [XHNet.step, HNet.step, hembedOp, hembed_setDirected]
+
+/-- running an exact Hilbert history on the embedded object is embedding the exact run -/
+theorem hembed_run (ops : List HOp) (h : HNet) :
+    (hembed h).run id (ops.map hembedOp) = (h.run ops).map hembed := by
+  induction ops generalizing h with
+  | nil => rfl
+  | cons o os ih =>
+    simp only [List.map_cons, XHNet.run, HNet.run, hembed_step]
+    cases h.step o with
+    | none => rfl
+    | some h1 => simpa using ih h1
+
 end Pyunicorn.Similarity
